@@ -1,4 +1,6 @@
 """C12 — remote calls run at most once, answer their own caller, mutate atomically."""
+import re
+
 import mir
 from mir import callee
 from common import *  # noqa: F401,F403
@@ -214,46 +216,44 @@ def r12_6(ck, F):
     for cname, crate in F.crates.items():
         if not cname.startswith(USER_CRATES):
             continue
+        cr = cname.split(".")[0]
         fns = crate["fns"]
         adts = {a["path"]: a for a in crate["adts"]}
         for tr in crate.get("traits", []):
-            tname = tr["path"].split("::")[-1]
-            req = adts.get(tr["path"] + "Req") or next((a for p, a in adts.items() if p.split("::")[-1] == tname + "Req"), None)
+            tpath = tr["path"]                      # module-qualified: several test modules define a trait `Counter`
+            tname = tpath.split("::")[-1]
+            req = adts.get(tpath + "Req")
             if req is None:
                 continue        # not a #[remote] trait
+            label = tpath if sum(1 for t in crate.get("traits", []) if t["path"].split("::")[-1] == tname) > 1 else tname
             variants = {v["name"] for v in req["variants"] if not v["name"].startswith("__")}
-            client = [f for f in fns if f.get("impl_trait", "").split("::")[-1] == tname and
-                      (f.get("impl_adt") or "").split("::")[-1] == tname + "Client"]
+            client = [f for f in fns if f.get("impl_trait") == tpath and (f.get("impl_adt") or "") == tpath + "Client"]
             cnames = {f["name"] for f in client}
             for m in tr["items"]:
                 n += 1
-                site = f"{tname}::{m}"
+                site = f"{label}::{m}"
                 ck.expect(m in cnames, site + "#client-forwards", "client implements the method",
                           f"the generated {tname}Client does not implement `{m}` itself: calls run the trait's default body locally "
                           f"instead of being sent to the server", None)
                 ck.expect(pascal(m) in variants, site + "#request-variant", f"request variant {pascal(m)}",
-                          f"no request variant for `{tname}::{m}` in {tname}Req ({sorted(variants)})", None)
+                          f"no request variant for `{tpath}::{m}` in {tname}Req ({sorted(variants)})", None)
                 if m in cnames:
-                    f = next(f for f in client if f["name"] == m)
-                    bodies = [b for b in F.by_dp.values() if b.crate == cname.split(".")[0] and
-                              mir.strip_generics(b.path).endswith(f"Client as {tname}>::{m}::{{closure#0}}")] or \
-                             [b for b in F.by_dp.values() if b.crate == cname.split(".")[0] and f"Client<" in b.path and
-                              b.path.split(">::")[-1].split("::")[0] == m and f" as {tname}" in b.path.replace(f"{cname.split('.')[0]}::", "")]
-                    built = {rv["variant"] for b in bodies for bb, i, rv in b.aggregates() if rv.get("adt", "").split("::")[-1].startswith(tname + "Req")}
-                    fam = set(built)
-                    for b in bodies:
-                        for k in F.kids(b) if hasattr(F, "kids") else []:
-                            fam |= {rv["variant"] for bb, i, rv in k.aggregates() if rv.get("adt", "").split("::")[-1].startswith(tname + "Req")}
+                    pat = re.compile(r"<" + re.escape(tpath) + r"Client(?:<.*?>)? as " + re.escape(tpath) + r"(?:<.*?>)?>::" + re.escape(m) + r"(::|$)")
+                    bodies = [b for b in F.by_dp.values() if b.crate == cr and pat.search(b.path)]
+                    fam = {rv["variant"] for b in bodies for bb, i, rv in b.aggregates()
+                           if rv.get("adt", "").startswith(tpath + "Req")}
                     ck.expect(pascal(m) in fam, site + "#client-builds-request", f"client method builds {pascal(m)}",
-                              f"{tname}Client::{m} does not construct the request variant {pascal(m)} (built: {sorted(fam)})", None)
+                              f"{tname}Client::{m} does not construct the request variant {pascal(m)} (built: {sorted(fam)}; "
+                              f"{len(bodies)} bodies)", None)
             # dispatch: each variant's arm calls the trait method of the same name
-            disp = {}
+            disp = set()
             for b, meth, kind in dispatch_coroutines(F):
-                if meth and meth[0].split("::")[-1] == tname:
-                    disp.setdefault(meth[1], []).append(b)
+                if meth and (meth[0] == tpath or meth[0].endswith("::" + tpath)) or \
+                        (meth and meth[0].split("::")[-1] == tname and tpath.rsplit("::", 1)[0] in b.path):
+                    disp.add(meth[1])
             for m in tr["items"]:
-                ck.expect(m in disp, f"{tname}::{m}#dispatched", "a dispatch future calls the trait method",
-                          f"no generated dispatch future calls {tname}::{m}", None)
+                ck.expect(m in disp, f"{label}::{m}#dispatched", "a dispatch future calls the trait method",
+                          f"no generated dispatch future calls {tpath}::{m}", None)
     ck.expect(n >= 15, "remote-traits#methods", f"{n} remote trait methods", f"only {n} remote trait methods found", None)
 
 
